@@ -1,3 +1,139 @@
+// eng_conform.rs — model validation for the stub file system (run with C10): a fixed,
+// single-threaded script of System calls is executed on RealSystem (in a scratch directory that
+// is the working directory of a dedicated subprocess) and on SimSystem, and the observable
+// results are compared.  This is validation of the stub, not simulation coverage.
+
 use super::*;
-pub fn run(_stats : &mut Stats) -> Vec<Found> { vec![] }
-pub fn replay() -> Vec<(String, String)> { vec![] }
+use std::io::{Read, Write};
+use crate::system::System;
+use crate::system::real::RealSystem;
+use super::super::simsys::World;
+use super::super::scen::RULER_DIR;
+
+fn read_all<S : System>(sys : &S, path : &str, chunk : usize) -> String
+{
+    match sys.open(path)
+    {
+        Err(e) => format!("open-error {:?}", e),
+        Ok(mut f) =>
+        {
+            let mut out = vec![];
+            let mut buf = vec![0u8; chunk];
+            loop
+            {
+                match f.read(&mut buf)
+                {
+                    Ok(0) => break,
+                    Ok(n) => out.extend_from_slice(&buf[..n]),
+                    Err(e) => return format!("read-error {}", e),
+                }
+            }
+            format!("{:?}", String::from_utf8_lossy(&out))
+        },
+    }
+}
+
+fn write_new<S : System>(sys : &mut S, path : &str, content : &[u8]) -> String
+{
+    match sys.create_file(path)
+    {
+        Err(e) => format!("create-error {:?}", e),
+        Ok(mut f) => match f.write_all(content) { Ok(_) => "ok".to_string(), Err(e) => format!("write-error {}", e) },
+    }
+}
+
+/* (step name, is it a primitive C10 leans on?, observation) */
+fn script<S : System>(sys : &mut S) -> Vec<(&'static str, bool, String)>
+{
+    let mut o : Vec<(&'static str, bool, String)> = vec![];
+    o.push(("create_dir d", false, format!("{:?}", sys.create_dir("d"))));
+    o.push(("create_dir d again", false, format!("{:?}", sys.create_dir("d").is_err())));
+    o.push(("create_dir in missing parent", false, format!("{:?}", sys.create_dir("nodir/sub"))));
+    o.push(("create+write d/a", false, write_new(sys, "d/a", b"hello")));
+    o.push(("is_file d/a", false, format!("{}", sys.is_file("d/a"))));
+    o.push(("is_dir d", false, format!("{}", sys.is_dir("d"))));
+    o.push(("is_file d", false, format!("{}", sys.is_file("d"))));
+    o.push(("is_dir d/a", false, format!("{}", sys.is_dir("d/a"))));
+    o.push(("is_file missing", false, format!("{}", sys.is_file("nope"))));
+    o.push(("is_dir missing", false, format!("{}", sys.is_dir("nope"))));
+    o.push(("get_modified missing", false, format!("{:?}", sys.get_modified("nope").err())));
+    o.push(("is_executable missing", false, format!("{:?}", sys.is_executable("nope"))));
+    o.push(("set_is_executable missing", false, format!("{:?}", sys.set_is_executable("nope", true))));
+    o.push(("is_executable fresh file", true, format!("{:?}", sys.is_executable("d/a"))));
+    o.push(("set_is_executable true", true, format!("{:?}", sys.set_is_executable("d/a", true))));
+    o.push(("is_executable after chmod", true, format!("{:?}", sys.is_executable("d/a"))));
+    let m_before = sys.get_modified("d/a").ok();
+    o.push(("rename d/a -> d/b", true, format!("{:?}", sys.rename("d/a", "d/b"))));
+    o.push(("source gone after rename", true, format!("{}", sys.is_file("d/a"))));
+    o.push(("bytes follow the rename", true, read_all(sys, "d/b", 256)));
+    o.push(("exec bit follows the rename", true, format!("{:?}", sys.is_executable("d/b"))));
+    o.push(("mtime follows the rename", true, format!("{}", sys.get_modified("d/b").ok() == m_before)));
+    o.push(("rename missing source", true, format!("{:?}", sys.rename("d/missing", "d/x"))));
+    o.push(("rename into missing directory", true, format!("{:?}", sys.rename("d/b", "nodir/x"))));
+    o.push(("file intact after failed rename", true, read_all(sys, "d/b", 256)));
+    o.push(("create+write d/c", false, write_new(sys, "d/c", b"other")));
+    let m_c = sys.get_modified("d/c").ok();
+    o.push(("rename onto existing file", true, format!("{:?}", sys.rename("d/c", "d/b"))));
+    o.push(("destination replaced: bytes", true, read_all(sys, "d/b", 256)));
+    o.push(("destination replaced: exec bit of the moved file", true, format!("{:?}", sys.is_executable("d/b"))));
+    o.push(("destination replaced: mtime of the moved file", true, format!("{}", sys.get_modified("d/b").ok() == m_c)));
+    o.push(("source gone after replacing rename", true, format!("{}", sys.is_file("d/c"))));
+    o.push(("list_dir d", false, format!("{:?}", sys.list_dir("d"))));
+    o.push(("list_dir missing", false, format!("{:?}", sys.list_dir("nope"))));
+    o.push(("list_dir on a file", false, format!("{:?}", sys.list_dir("d/b"))));
+    o.push(("open missing", false, format!("{:?}", sys.open("nope").err())));
+    o.push(("create_file in missing directory", false, format!("{:?}", sys.create_file("nodir/x").err())));
+    o.push(("create_dir sub", false, format!("{:?}", sys.create_dir("d/sub"))));
+    o.push(("create+write d/sub/z", false, write_new(sys, "d/sub/z", b"zz")));
+    o.push(("list_dir with file and dir", false, format!("{:?}", sys.list_dir("d"))));
+    o.push(("short reads", false, read_all(sys, "d/b", 2)));
+    let _ = sys.set_is_executable("d/b", true);
+    let m1 = sys.get_modified("d/b").ok();
+    o.push(("truncating create keeps the file", false, write_new(sys, "d/b", b"new")));
+    o.push(("content after rewrite", false, read_all(sys, "d/b", 256)));
+    o.push(("exec bit survives truncation", false, format!("{:?}", sys.is_executable("d/b"))));
+    o.push(("mtime does not go backwards", false, format!("{}", sys.get_modified("d/b").ok() >= m1)));
+    o.push(("set_is_executable false", false, format!("{:?}", sys.set_is_executable("d/b", false))));
+    o.push(("is_executable after clearing", false, format!("{:?}", sys.is_executable("d/b"))));
+    o.push(("empty file round trip", false, format!("{} {}", write_new(sys, "d/empty", b""), read_all(sys, "d/empty", 256))));
+    o
+}
+
+fn compare() -> (usize, Vec<(bool, String, String)>)
+{
+    // cwd of this process is the scratch directory prepared by the driver
+    let mut real = RealSystem::new();
+    let real_obs = script(&mut real);
+    let w = World::new(Knobs::default(), RULER_DIR);
+    let mut sim = w.system();
+    let sim_obs = script(&mut sim);
+    let mut out = vec![];
+    for ((name, core, r), (_, _, s)) in real_obs.iter().zip(sim_obs.iter())
+    {
+        if r != s
+        {
+            out.push((*core, name.to_string(), format!("RealSystem: {}   SimSystem: {}", r, s)));
+        }
+    }
+    (real_obs.len(), out)
+}
+
+pub fn run(stats : &mut Stats) -> Vec<Found>
+{
+    let (steps, diffs) = compare();
+    stats.add("conformance.steps_compared", steps as u64);
+    stats.add("conformance.disagreements", diffs.len() as u64);
+    diffs.into_iter().map(|(core, name, detail)| Found
+    {
+        prop : "C10".to_string(),
+        sig : format!("{}:{}", if core { "C10:real-file-system-differs-from-model" } else { "CONFORM-HARNESS" }, name.replace(' ', "-")),
+        detail : format!("conformance probe step '{}': {}", name, detail),
+        explain : J::obj().set("step", J::s(&name)),
+        replay : Replay::Conformance,
+    }).collect()
+}
+
+pub fn replay() -> Vec<(String, String)>
+{
+    compare().1.into_iter().map(|(core, name, detail)| (format!("{}:{}", if core { "C10:real-file-system-differs-from-model" } else { "CONFORM-HARNESS" }, name.replace(' ', "-")), detail)).collect()
+}
